@@ -99,6 +99,26 @@ PROPS = {
     ),
 }
 
+PROPS["C14"] = dict(
+    level="exploration",
+    variants=dict(quick=[("memtrace", 1)], thorough=[("memtrace", 1)]),
+    must_build=["memtrace"],
+    runs=dict(quick=4000, thorough=120000), secs=dict(quick=50, thorough=600),
+    det_pairs=dict(quick=64, thorough=256),
+    rule="one evaluation = one threadsim run in a child forked from a process that never entered libopus: 2-6 tasks (real pthreads, one baton) each creating, configuring, using and destroying its own "
+         "encoder / decoders / repacketizer (kinds and configurations mixed, at least two tasks of the same kind, often identical), interleaved by a seeded scheduler that preempts at traced memory accesses of "
+         "library code (clang -fsanitize=thread instrumentation, own runtime) after seeded access counts or at a task's n-th first entry into a library function; oracle (i) ownership / vector-clock detector: "
+         "no access to another task's heap or stack, no unordered conflicting pair on any other writable location; oracle (ii) every task's results equal those of the same task run alone afterwards; "
+         "non-trivial = at least one seeded preemption fired and >=5 encode/decode calls succeeded; distinct = 64-bit signature over (preemption list, switches, per-task access counts)",
+    fault_keys=["preemptions_fired", "switches"],
+    probes_required=["traced_accesses", "rodata_reads", "first_function_entries", "tasks_2", "tasks_3", "mode_silk", "mode_hybrid", "mode_celt", "rp_ops"],
+    real=REAL_CODEC + ["real pthreads (one per task), real libopus code instrumented by the compiler's TSan pass"],
+    simulated=["thread scheduler (baton; seeded preemption at memory-access granularity)", "TSan runtime replaced by the simulator's ownership / happens-before detector",
+               "per-task heap arenas and stacks (simulator-owned, never reused across tasks)", "signal sources, control plane (seeded)", "CPU level behind --wrap=opus_select_arch"],
+    assumptions=["seeded sampling of schedules, not exhaustive", "races inside libc / libm are not observed (not instrumented)", "builds with NONTHREADSAFE_PSEUDOSTACK are outside the claim",
+                 "happens-before edges are honoured for pthread_mutex, pthread_once and atomics used by library code (treated as acquire+release)"],
+)
+
 # ---- MANIFEST texts (bin/mkmanifest)
 _TECH = "deterministic simulation with fault injection: "
 _NOTE = "seeded sampling, not proof; trusted: the simulator's oracles and models, the compilers/sanitizers; DRED/OSCE/custom modes not built. "
@@ -126,3 +146,7 @@ PROPS["C16"].update(
     level_text="seeded search over extension-carrying middlebox sessions: generate/parse/count/iterate round trips with capacity faults and corrupted padding, and carriage of extensions through repacketizer merges and splits against an extension-list model",
     level_note=_NOTE + "the list<->bytes bijection itself is exercised at exploration strength only",
     technique=_TECH + "capacity/corruption faults on the extension area and repacketizer carriage, extension-list reference model")
+PROPS["C14"].update(
+    level_text="seeded search over thread interleavings: independent codec instances run as real threads under a baton scheduler that preempts at instrumented memory accesses inside libopus; a simulator-owned ownership / happens-before detector flags any cross-task conflicting access, and every task must match its own serial execution bit for bit; each run starts from a pristine process image so lazy initialisation happens inside the run",
+    level_note=_NOTE + "libc/libm internals are not instrumented; schedules are sampled, not enumerated",
+    technique=_TECH + "seeded baton scheduler over real threads with preemption at compiler-instrumented memory accesses, ownership/vector-clock race oracle + serial-equivalence oracle")
